@@ -127,6 +127,8 @@ class Net:
         self.ports_tried = {}          # (sender addr, destination ip) -> udp ports the sender sent datagrams to
         self.max_datagram = 0
         self.blocked = set()           # (sender addr, receiver addr) pairs whose datagrams are all lost
+        self.batch = None
+        self.held = []
         loop.create_datagram_endpoint = self._create_datagram_endpoint
 
     async def _create_datagram_endpoint(self, proto_lam, from_addr):
@@ -163,7 +165,30 @@ class Net:
             self.in_flight += 1
             self.loop.call_later(d, self._deliver, frm, to, data)
 
+    def set_batching(self, period, order_key):
+        """a legal delivery schedule: datagrams are held and handed over in bursts, every `period` seconds, all datagrams
+        for one receiver within one event-loop iteration, ordered by order_key(sender addr, receiver addr)"""
+        self.batch = (period, order_key)
+        self.held = []
+        self.loop.call_later(period, self._flush)
+
+    def _flush(self):
+        if self.batch is None:
+            held, self.held = self.held, []
+        else:
+            period, key = self.batch
+            held, self.held = sorted(self.held, key=lambda it: (it[1], key(it[0], it[1]))), []
+            self.loop.call_later(period, self._flush)
+        for frm, to, data in held:
+            self._deliver_now(frm, to, data)
+
     def _deliver(self, frm, to, data):
+        if self.batch is not None:
+            self.held.append((frm, to, data))
+            return
+        self._deliver_now(frm, to, data)
+
+    def _deliver_now(self, frm, to, data):
         self.in_flight -= 1
         if to in self.dead:
             return
@@ -381,7 +406,7 @@ class _TraceMixin:
         self._pid = PeerIds()
         self._events = []
         self._cur = None
-        self._shadow_running = []
+        self._task_ids = {}
         self._t_start = loop.time()
         self._n_sched = 0
         self._learned = set()
@@ -424,18 +449,25 @@ class _TraceMixin:
         return super()._reset_closest(peer)
 
     def _schedule_probe(self, peer):
+        tid = self._n_sched          # probe tasks are numbered in scheduling order (the model's f_sched)
         self._n_sched += 1
         self._note({'c': 'sched', 'peer': self._prec(peer)})
-        if peer not in self._shadow_running:
-            self._shadow_running.append(peer)
-        return super()._schedule_probe(peer)
+        r = super()._schedule_probe(peer)
+        self._task_ids[self.running_probes[peer]] = (self._pid(peer), tid)
+        return r
 
     def _search_round(self):
-        popped = [p for p in self._shadow_running if p not in self.running_probes]
-        for p in popped:
-            self._shadow_running.remove(p)
+        # which probe task's done-callback is calling?  (none: the initial round scheduled by __aiter__)
+        import sys as _sys
+        caller = _sys._getframe(1)
+        done = None
+        if caller.f_code.co_name == 'callback':
+            for v in caller.f_locals.values():
+                if isinstance(v, asyncio.Task) and v in self._task_ids and v.done():
+                    done = self._task_ids[v]
+                    break
         outer = self._cur
-        self._cur = {'e': 'round', 'popped': [self._pid(p) for p in popped]}
+        self._cur = {'e': 'round', 'done': done}
         try:
             return super()._search_round()
         finally:
@@ -742,13 +774,13 @@ def trace_to_model(finder):
                         outs.append(['finish'])
                 elif c['c'] == 'exhausted' and finder.KIND == 'value':
                     outs.append(['finish'])
-            popped = rec['popped']
-            if len(popped) > 1:
-                anomalies.append('round with %d pops' % len(popped))
-            if not popped and not started:
+            done = rec.get('done')
+            if done is None:
+                if started:
+                    anomalies.append('search round outside a done-callback')
                 evs.append({'e': 'start', 'good': good})
             else:
-                evs.append({'e': 'done', 'p': popped[0] if popped else 0, 'good': good})
+                evs.append({'e': 'done', 'p': done[0], 'tid': done[1], 'good': good})
             started = True
         elif kind == 'probe':
             if rec['outcome'] == 'exc':
@@ -831,9 +863,10 @@ def compare_trace(run, model, finder, label):
             e['tag'] = g['tag'] if g['tag'] in (0, 1) else 'not-crash'
     impl = {'steps': exp, 'sched': finder._n_sched,
             'contacted': sorted(finder._pid(p) for p in finder.contacted),
-            'active': [finder._pid(p) for p in finder.active.keys()], 'anomalies': anomalies}
+            'active': [finder._pid(p) for p in finder.active.keys()], 'anomalies': anomalies,
+            'running': sorted(finder._pid(p) for p in finder.running_probes)}
     mod = {'steps': got, 'sched': res['sched'], 'contacted': sorted(res['contacted']), 'active': res['active'],
-           'anomalies': []}
+           'anomalies': [], 'running': sorted(res['running'])}
     case = {'part': 'finder-trace', 'label': label, 'request': req}
     return case, impl, mod, res
 
@@ -1097,18 +1130,33 @@ def gen_compacts(rng, n):
 
 def run_paging_sim(run, model, case):
     n, seed = case['n'], case['seed']
-    sim = Sim(seed, 2)
+    race = case.get('race')
+    blob = constants.digest(b'paging-blob-%d' % seed)
+    if race:
+        # a third node Q that holds nothing and is CLOSER to the hash than the storing node P; replies reach the searcher
+        # in bursts (one loop iteration), Q's before P's: P's next-page probe is re-scheduled by Q's done-callback
+        dist = Distance(blob)
+        ids = sorted((constants.digest(b'race-%d-%d' % (seed, i)) for i in range(3)), key=dist)
+        sim = Sim(seed, 3, ids=[ids[1], ids[0], ids[2]])          # node 0 = P (bootstrap, storing), 1 = Q, 2 = searcher
+    else:
+        sim = Sim(seed, 2)
+    searcher = 2 if race else 1
 
     async def go():
         await sim.start()
         await asyncio.sleep(320)
-        blob = constants.digest(b'paging-blob-%d' % seed)
         anns = [LightAnnouncer(sim, j) for j in range(n)]
         for a in anns:
             r = await a.announce_to(blob, [sim.nodes[0]])
             if not r[0][1]:
                 raise RuntimeError('store refused')
-        found, finder, fin = await sim.value_lookup(1, blob, max_probes=200)
+        if race:
+            await asyncio.sleep(400)          # everybody knows everybody
+            dist = Distance(blob)
+            by_addr = {sim.addr(k): dist(nd.protocol.node_id) for k, nd in enumerate(sim.nodes)}
+            sim.net.set_batching(race['period'], lambda frm, to: by_addr.get(frm, 0))
+        found, finder, fin = await sim.value_lookup(searcher, blob, max_probes=200)
+        sim.net.batch = None
         return blob, anns, found, finder, fin
 
     try:
@@ -1117,7 +1165,9 @@ def run_paging_sim(run, model, case):
         shuffled = [j + 1 for j in range(n)]
         if n > K:
             random.Random(sim.nodes[0].protocol.node_id).shuffle(shuffled)
-        asked = [rec['page'] for rec in finder._events if rec['e'] == 'probe' and rec.get('outcome') == 'reply']
+        p_pids = {v for k, v in finder._pid.ids.items() if k.address == sim.endpoints[0][0]}
+        asked = [rec['page'] for rec in finder._events if rec['e'] == 'probe' and rec.get('outcome') == 'reply'
+                 and rec['pid'] in p_pids]
         impl = {'delivered': [order.get(p.node_id, 0) for p in found], 'asked': asked, 'finished': fin}
         res = model.call('walk_honest', l=shuffled)
         mod = {'delivered': res['delivered'], 'asked': res['asked'], 'finished': res['finished']}
@@ -1442,7 +1492,19 @@ def run_many_case(run, model, case):
         async def one(i):
             found, finder, fin = await sim.value_lookup(i, blob, max_probes=3000)
             return i, found, finder, fin
-        results = await asyncio.gather(*[one(i) for i in range(n)])
+        if case.get('batch'):
+            # bursts: everything addressed to one node arrives in one loop iteration, farthest-from-the-key sender first
+            dist = Distance(blob)
+            by_addr = {sim.addr(k): dist(nd.protocol.node_id) for k, nd in enumerate(sim.nodes)}
+            sign = -1 if case['batch'].get('order') == 'far_first' else 1
+            sim.net.set_batching(case['batch']['period'], lambda frm, to: sign * by_addr.get(frm, 0))
+        searchers = case.get('searchers') or list(range(n))
+        if case.get('sequential'):
+            results = [await one(i) for i in searchers]
+        else:
+            results = await asyncio.gather(*[one(i) for i in searchers])
+        if case.get('batch'):
+            sim.net.batch = None
         worst = None
         for i, found, finder, fin in results:
             problems.extend(check_lookup(sim, i, finder, found, fin, 0, 0))
@@ -1561,6 +1623,237 @@ def run_lastcrash_case(run, model, case):
                         info['lookups'] += 1
                         for pr in check_lookup(sim, i, finder, found, fin, t0, sim.loop.time()):
                             problems.append(f'[{what} lookup, shortlist {"= the malformed-reply node only" if shortlist else "from the routing table"}] ' + pr)
+        return problems
+    try:
+        problems = sim.run(go())
+        return info, problems, sim.traces
+    finally:
+        sim.close()
+
+
+def run_storeport_case(run, model, case):
+    """KademliaRPC.store over the port boundary list: what it accepts must be a port a peer address can carry"""
+    loop = VirtualLoop()
+    try:
+        proto = KademliaProtocol(loop, PeerManager(loop), constants.digest(b'sp'), '1.2.3.4', 4444, 3333)
+        key = constants.digest(b'storeport-key')
+        impl, mod, problems = {}, {}, []
+        for j, port in enumerate(case['ports']):
+            contact = make_kademlia_peer(constants.digest(b'sp-%d' % j), ip_of(40 + j), 4444)
+            token = proto.node_rpc.make_token(contact.compact_ip())
+            try:
+                ok = proto.node_rpc.store(contact, key, token, port) == b'OK'
+            except (ValueError, OverflowError):
+                ok = False
+            impl[str(port)] = ok
+            mod[str(port)] = model.call('store_port_ok', port=max(port, 0)) if port >= 0 else False
+            if ok and not 1024 <= port <= 65535:
+                problems.append(f'store accepted tcp port {port}, which no peer address may carry')
+        served = []
+        try:
+            resp = proto.node_rpc.find_value(make_kademlia_peer(constants.digest(b'sp-req'), '1.2.9.9', 4444), key, 0)
+            for c in resp.get(key, []):
+                try:
+                    decode_tcp_peer_from_compact_address(bytes(c))
+                except ValueError:
+                    served.append(bytes(c).hex()[:16])
+        except Exception as e:
+            problems.append(f'findValue on the stored peers raised {type(e).__name__}')
+        if served:
+            problems.append(f'findValue serves {len(served)} stored peer address(es) that no searcher can decode')
+        return impl, mod, problems
+    finally:
+        loop.close()
+
+
+def run_pingq_case(run, model, case):
+    """PingQueue.enqueue_maybe_ping / the selection rule of _process on op lists with integer times"""
+    from lbry.dht.protocol.protocol import PingQueue
+    clock = _Clock()
+    pqueue = PingQueue(clock, None)
+    peers = [make_kademlia_peer(constants.digest(b'pq-%d' % i), ip_of(60 + i), 4444) for i in range(case['peers'])]
+    num = {p: i for i, p in enumerate(peers)}
+    mops, popped, problems, deadline = [], [], [], {}
+    for op in case['ops']:
+        if op[0] == 'enq':
+            _, i, now, delay = op
+            clock.t = now
+            pqueue.enqueue_maybe_ping(peers[i], delay=delay)
+            mops.append(['enq', i, now + delay])
+            got = pqueue._pending_contacts[peers[i]]
+            if i in deadline and got > deadline[i]:
+                problems.append(f'the verification ping of contact {i} was due at {deadline[i]}, a further request at t={now} '
+                                f'moved it to {got}')
+            deadline[i] = min(deadline.get(i, got), got)
+        else:                                   # what _process would ping at time now
+            now = op[1]
+            clock.t = now
+            hit = None
+            for peer in list(pqueue._pending_contacts.keys()):
+                if pqueue._pending_contacts[peer] <= now:
+                    del pqueue._pending_contacts[peer]
+                    hit = num[peer]
+                    break
+            popped.append(hit)
+            deadline.pop(hit, None)
+            mops.append(['pop', now])
+    res = model.call('pq', ops=mops)
+    impl = {'queue': [[num[p], t] for p, t in pqueue._pending_contacts.items()], 'popped': popped}
+    return impl, {'queue': res['queue'], 'popped': res['popped']}, problems
+
+
+def gen_pingq_ops(rng, length):
+    m = rng.choice([1, 2, 4])
+    ops, now = [], 0
+    for _ in range(length):
+        now += rng.choice([0, 1, 30, 60, 299, 300, 301])
+        if rng.random() < 0.8:
+            ops.append(['enq', rng.randrange(m), now, rng.choice([0, 300, 300, 300, 10])])
+        else:
+            ops.append(['pop', now])
+    return {'part': 'pingq', 'peers': m, 'ops': ops}
+
+
+def run_lowport_case(run, model, case):
+    """a node whose blob server listens on a privileged tcp port announces next to an honest announcer: every value
+    lookup (the storing nodes' own ones included) yields only well-formed addresses and still finds the honest one"""
+    n, seed, port = case['n'], case['seed'], case['port']
+    sim = Sim(seed, n, Profile(delay=tuple(case['delay'])), ports={str(n - 1): [4444, port]})
+    rng = random.Random(seed * 23 + 7)
+
+    async def go():
+        problems = []
+        await sim.start()
+        await asyncio.wait_for(sim.nodes[0].joined.wait(), 3000)
+        await asyncio.sleep(700)
+        blob = bytes(rng.randrange(256) for _ in range(48))
+        honest, odd = 1, n - 1
+        for a in (honest, odd, honest):
+            try:
+                await sim.nodes[a].announce_blob(blob.hex())
+            except Exception:
+                pass
+        async def one(i):
+            found, finder, fin = await sim.value_lookup(i, blob)
+            return i, found, finder, fin
+        for i, found, finder, fin in await asyncio.gather(*[one(i) for i in range(n)]):
+            problems.extend(check_lookup(sim, i, finder, found, fin, 0, 0))
+            # (the misconfigured node itself is not judged: its refused store requests make it rate the storing nodes bad)
+            if i not in (honest, odd) and sim.nodes[honest].protocol.node_id not in {p.node_id for p in found}:
+                problems.append(f'node {i}: the value lookup does not return the honest announcer stored next to a peer '
+                                f'announcing tcp port {port}')
+        return problems
+    try:
+        problems = sim.run(go())
+        return {}, problems, sim.traces
+    finally:
+        sim.close()
+
+
+def run_cancel_case(run, model, case):
+    """searches cancelled mid-flight (Node.accumulate_peers task cancelled by its consumer while the probe to the
+    announcer is still unanswered) must not make anybody rate the live announcer bad: no loss, no dead node"""
+    n, seed = case['n'], case['seed']
+    sim = Sim(seed, n, Profile(delay=tuple(case['delay'])), rpc_timeout=case.get('rpc_timeout'))
+    rng = random.Random(seed * 29 + 3)
+    info = {'cancelled': 0}
+
+    async def lookups(label, blob, a):
+        async def one(i):
+            found, finder, fin = await sim.value_lookup(i, blob)
+            return i, found, finder, fin
+        problems, miss = [], []
+        for i, found, finder, fin in await asyncio.gather(*[one(i) for i in range(n) if i != a]):
+            problems.extend(check_lookup(sim, i, finder, found, fin, 0, 0))
+            if sim.nodes[a].protocol.node_id not in {p.node_id for p in found}:
+                miss.append(i)
+        if miss:
+            problems.append(f'[{label}] loss-free honest network of {n}, no dead node: after searches were cancelled '
+                            f'mid-flight the value lookups of nodes {miss} no longer return the live announcer {a}')
+        return problems
+
+    async def go():
+        problems = []
+        await sim.start()
+        await asyncio.wait_for(sim.nodes[0].joined.wait(), 3000)
+        await asyncio.sleep(case.get('settle', 700))
+        blob = bytes(rng.randrange(256) for _ in range(48))
+        a = rng.randrange(1, n)
+        for _ in range(40):
+            if len(await sim.nodes[a].announce_blob(blob.hex())) >= min(5, n - 1):
+                break
+            await asyncio.sleep(60)
+        t_ann = sim.loop.time()
+        # the announcer's datagrams are slow for a while (well within the timeout): a legal delay
+        slow = sim.rpc_timeout * 0.6
+        orig_send = sim.net.send
+
+        def send(frm, to, data):
+            if frm == sim.addr(a):
+                sim.net.sent += 1
+                sim.net.in_flight += 1
+                sim.loop.call_later(slow, sim.net._deliver, frm, to, data)
+            else:
+                orig_send(frm, to, data)
+        sim.net.send = send
+        for rnd in range(2):
+            tasks = []
+            for i in range(n):
+                if i == a:
+                    continue
+                sq, pq = asyncio.Queue(), asyncio.Queue()
+                sq.put_nowait(sim.nodes[a].protocol.node_id.hex() if rnd == 0 else blob.hex())
+                tasks.append(sim.nodes[i].accumulate_peers(sq, pq)[1])
+            await asyncio.sleep(sim.rpc_timeout * 0.3)
+            for t in tasks:
+                t.cancel()
+                info['cancelled'] += 1
+            await asyncio.sleep(sim.rpc_timeout * 1.5)
+        sim.net.send = orig_send
+        problems += await lookups('right after', blob, a)
+        await asyncio.sleep(max(0.0, t_ann + 3700 - sim.loop.time()))       # past the hourly clean-up of the data stores
+        problems += await lookups('one hour later', blob, a)
+        return problems
+    try:
+        problems = sim.run(go())
+        return info, problems, sim.traces
+    finally:
+        sim.close()
+
+
+def run_busy_case(run, model, case):
+    """a node joins a formed network and stays busy (one value lookup per minute for `minutes` virtual minutes); it must
+    still be verified by the others, so a blob whose hash is closest to it is stored on it"""
+    n, seed = case['n'], case['seed']
+    sim = Sim(seed, n, Profile(delay=tuple(case['delay'])))
+    rng = random.Random(seed * 31 + 11)
+    info = {}
+
+    async def go():
+        problems = []
+        busy = n - 1
+        order = list(range(1, n - 1))
+        await sim.start(order)
+        await asyncio.wait_for(sim.nodes[0].joined.wait(), 3000)
+        await asyncio.sleep(1500)
+        sim.nodes[busy].start('0.0.0.0', [sim.boot_addr])
+        await asyncio.wait_for(sim.nodes[busy].joined.wait(), 900)
+        for _ in range(case['minutes']):
+            t0 = sim.loop.time()
+            await sim.value_lookup(busy, bytes(rng.randrange(256) for _ in range(48)))
+            await asyncio.sleep(max(0.0, t0 + case.get('every', 60) - sim.loop.time()))
+        bid = sim.nodes[busy].protocol.node_id
+        blob = bid[:-1] + bytes([bid[-1] ^ 1])               # the busy node is the closest node to this hash
+        a = rng.randrange(1, n - 1)
+        stored = await sim.nodes[a].announce_blob(blob.hex())
+        known_by = sum(1 for k, nd in enumerate(sim.nodes) if k != busy and nd.protocol.routing_table.get_peer(bid))
+        info['known_by'] = known_by
+        info['stored'] = len(stored)
+        if bid not in stored:
+            problems.append(f'honest loss-free network of {n}: node {busy} joined through the bootstrap node '
+                            f'{case["minutes"]} minutes ago, answers everything and is the closest node to the hash, yet the '
+                            f'announcement is stored on {len(stored)} other nodes and not on it (it is in the routing '
+                            f'table of {known_by} of {n - 1} nodes)')
         return problems
     try:
         problems = sim.run(go())
@@ -1757,6 +2050,31 @@ def do_case(run, model, case, rng=None):
             run.violation(case, p, signature={'part': 'many', 'n': case['n'], 'ann': case['ann'], 'seed': case['seed']})
         compare_traces(run, model, [t for t in traces if t.KIND == 'value'], 'many ann=%d seed=%d' % (case['ann'], case['seed']),
                        rng, case.get('trace_cap', 12))
+    elif part == 'pingq':
+        impl, mod, problems = run_pingq_case(run, model, case)
+        run.case(case, nontrivial=len(case['ops']) > 1)
+        run.count('pingq')
+        if problems:
+            run.violation(case, problems[0], signature={'part': 'pingq', 'ops': case['ops'][:20]})
+        else:
+            run.compare('C12.pq', case, impl, mod)
+    elif part == 'storeport':
+        impl, mod, problems = run_storeport_case(run, model, case)
+        run.case(case, nontrivial=True)
+        run.count('storeport')
+        if problems:
+            run.violation(case, problems[0], signature={'part': 'storeport'})
+        else:
+            run.compare('C12.store_port_ok', case, impl, mod)
+    elif part in ('lowport', 'cancel', 'busy'):
+        runner = {'lowport': run_lowport_case, 'cancel': run_cancel_case, 'busy': run_busy_case}[part]
+        info, problems, traces = runner(run, model, case)
+        run.case(case, nontrivial=True)
+        run.count(part + ':n=%d' % case['n'])
+        for p in problems[:3]:
+            run.violation(case, p, signature={'part': part, 'n': case['n'], 'seed': case['seed']})
+        compare_traces(run, model, [t for t in traces if t.KIND == 'value'], '%s n=%d seed=%d' % (part, case['n'], case['seed']),
+                       rng, 12)
     elif part == 'lastcrash':
         info, problems, traces = run_lastcrash_case(run, model, case)
         run.case(case, nontrivial=True)
@@ -1836,7 +2154,11 @@ def main(run):
         'up through Node.accumulate_peers from every node; E2a a fixed family: a late joiner looks up the exact id of a node that '
         'died before it joined, of a silent node and of a live node whose datagrams to it are all lost; E2b a fixed family: the node whose reply is decodable but of '
         'the wrong shape (int result, findValue dict without token, 2-byte compact address) is the only shortlist entry or the '
-        'slowest to answer, so its probe is the last to complete; non-trivial = contains at least one query (ds), n>0 (pages), >2 events (traces).'
+        'slowest to answer, so its probe is the last to complete; E1c fixed families: searches (Node.accumulate_peers) cancelled by their consumer '
+        'while the probe to a slow announcer is unanswered, then lookups right after and one hour later; a joiner that issues one lookup '
+        'per minute for 90 virtual minutes, then a blob whose hash is closest to it; a node announcing a privileged tcp port next to '
+        'an honest announcer; replies delivered in bursts (one loop iteration) with an empty-handed closer node answering just before '
+        'the paging node; KademliaRPC.store over the port boundary list; non-trivial = contains at least one query (ds), n>0 (pages), >2 events (traces).'
         % len(FAULT_KINDS))
     supporting = {'hit_runs': 0, 'hit_lookups': 0, 'hit_misses': 0, 'stale_hits': 0, 'late_lookups': 0,
                   'stored_to': {}, 'closest_overlap': {}, 'announce_tries': {}, 'by_size': {},
@@ -1922,6 +2244,20 @@ def main(run):
         do_case(run, model, {'part': 'many', 'n': n, 'ann': a, 'addr': addr, 'seed': rng.randrange(1 << 30),
                              'delay': [0.001, rng.choice([0.05, 0.5, 1.5])], 'dup': rng.choice([0.0, 0.2]),
                              'settle': rng.choice([0, 300, 1300])}, rng)
+    for _ in range(vlib.scaled(tier, 150, 3000)):
+        do_case(run, model, gen_pingq_ops(rng, rng.choice([3, 8, 20])))
+    # ---- E1c: fixed families for cancellation, a busy joiner, a privileged tcp port, the paging race
+    do_case(run, model, {'part': 'storeport', 'ports': [-1, 0, 1, 80, 1023, 1024, 1025, 3333, 65534, 65535, 65536, 70000]})
+    for idx in range(vlib.scaled(tier, 2, 12)):
+        do_case(run, model, {'part': 'cancel', 'n': [5, 8, 12][idx % 3], 'seed': rng.randrange(1 << 30),
+                             'delay': [0.001, [0.05, 0.2][idx % 2]], 'rpc_timeout': [None, 2.0][idx % 2]}, rng)
+        do_case(run, model, {'part': 'lowport', 'n': [5, 9, 12][idx % 3], 'port': [80, 443, 1023, 1][idx % 4],
+                             'seed': rng.randrange(1 << 30), 'delay': [0.001, 0.1]}, rng)
+    for idx in range(vlib.scaled(tier, 1, 6)):
+        do_case(run, model, {'part': 'busy', 'n': [11, 14][idx % 2], 'minutes': 90, 'seed': rng.randrange(1 << 30),
+                             'delay': [0.001, 0.1]}, rng)
+    for n_ann in ([8, 20, 33] if tier != 'thorough' else [8, 9, 16, 17, 20, 24, 33, 64, 100]):
+        do_case(run, model, {'part': 'paging_sim', 'n': n_ann, 'seed': rng.randrange(1000), 'race': {'period': [0.2, 0.4][n_ann % 2]}}, rng)
     # ---- E2a: lookups for the exact id of a dead / silent / never-heard node by a late joiner (fixed family)
     for idx in range(vlib.scaled(tier, 4, 40)):
         do_case(run, model, {'part': 'hearsay', 'n': [6, 9, 12, 16][idx % 4], 'seed': rng.randrange(1 << 30),
